@@ -386,7 +386,9 @@ pub fn load(dir: &Path, tier: Tier) -> Result<Catalogue, String> {
         ("", "\n", 500_000, ""),
         ("", "&a", 100_000, ""),
         ("", "a ", 700_000, "%put done;"),
-        ("%m(a , /*c*/ b = ", "/*c*/ ", 20_000, ")"),
+        ("%m(a , /*c*/ b = ", "/*c*/ ", 60_000, ")"),
+        ("%let ", "/*c*/ ", 60_000, "a=1;"),
+        ("%m", " \n", 150_000, "(1)"),
     ]
     .iter()
     .enumerate()
